@@ -651,8 +651,9 @@ class ConfusionMatrixAggFn(base.AggregateFn):
         and self.vocab is None
     ):
       raise ValueError(f'Global vocab is needed for "{self._average}" average.')
-    iter_acc = iter(states)
-    result = next(iter_acc)
+    # The state of a shard that saw nothing is None, see update_state.
+    iter_acc = (state for state in states if state is not None)
+    result = next(iter_acc, None)
     for accumulator in iter_acc:
       result += accumulator
     return result
